@@ -37,5 +37,5 @@ def cases(ctx):
     return eg.engine_cases(max_jobs=ctx.pick(5, 7), fail_pct=25, runs2_pct=12, stage2_pct=8, adopt_pct=10)
 
 
-PARTS = [Part("engine", prop, strategy=cases, quick=6400, thorough=160000, shrink_budget=40)]
+PARTS = [Part("engine", prop, strategy=cases, quick=6400, thorough=64000, shrink_budget=40)]
 TIMEOUT = {"quick": 900, "thorough": 5400}
